@@ -93,6 +93,30 @@ def negate(e: ast.expr) -> ast.expr:
     return _loc(ast.UnaryOp(op=ast.Not(), operand=e), e)  # type: ignore[return-value]
 
 
+_NEG_OPS = (ast.IsNot, ast.NotIn, ast.NotEq)
+
+
+def neg_count(e: ast.expr) -> int:
+    """How many negative leaves a test has (`not x`, `is not`, `not in`, `!=`)."""
+    if isinstance(e, ast.UnaryOp) and isinstance(e.op, ast.Not):
+        return 1 + neg_count(e.operand)
+    if isinstance(e, ast.BoolOp):
+        return sum(neg_count(v) for v in e.values)
+    if isinstance(e, ast.Compare) and len(e.ops) == 1 and isinstance(e.ops[0], _NEG_OPS):
+        return 1
+    return 0
+
+
+def prefer_negation(e: ast.expr) -> Optional[ast.expr]:
+    """The negation of test e (negation normal form) if it has strictly fewer
+    negative leaves than e itself - the orientation both arms of an if/else are
+    put in; None to keep e."""
+    n = simplify_test(_loc(ast.UnaryOp(op=ast.Not(), operand=copy.deepcopy(e)), e))  # type: ignore[arg-type]
+    if neg_count(n) < neg_count(e):
+        return n
+    return None
+
+
 def _is_len_of(e: ast.expr) -> Optional[ast.expr]:
     if isinstance(e, ast.Call) and isinstance(e.func, ast.Name) and e.func.id == "len" and len(e.args) == 1 and not e.keywords:
         return e.args[0]
@@ -138,6 +162,16 @@ def simplify_test(e: ast.expr) -> ast.expr:
                 vals.extend(sv.values)
             else:
                 vals.append(sv)
+        # neutral / absorbing boolean constants (test position: only the truth value matters)
+        is_and = isinstance(e.op, ast.And)
+        neutral = [v for v in vals if isinstance(v, ast.Constant) and v.value is (True if is_and else False)]
+        absorbing = [v for v in vals if isinstance(v, ast.Constant) and v.value is (False if is_and else True)]
+        if absorbing and all(is_pure(v) for v in vals):
+            return absorbing[0]
+        if neutral:
+            vals = [v for v in vals if not any(v is n_ for n_ in neutral)] or [neutral[0]]
+            if len(vals) == 1:
+                return vals[0]
         if len(vals) != len(e.values) or any(a is not b for a, b in zip(vals, e.values)):
             return _loc(ast.BoolOp(op=e.op, values=vals), e)  # type: ignore[return-value]
         return e
@@ -281,6 +315,17 @@ class BlockCanon:
                     st.test, st.body, st.orelse = simplify_test(negate(st.test)), st.orelse, []
                     stmts[i + 1 : i + 1] = body
                     continue
+                # ---- both "arms" terminate (`if c: T1` followed by a terminating REST): positive orientation (C2)
+                if enabled("C2") and not st.orelse and rest and terminates(st.body) and terminates(rest) \
+                        and not isinstance(st.body[-1], (ast.Continue, ast.Break)) and not isinstance(rest[-1], (ast.Continue, ast.Break)) \
+                        and not any(isinstance(x, FuncNode) for x in rest):
+                    pn = prefer_negation(st.test)
+                    if pn is not None:
+                        self.changed = True
+                        body = st.body
+                        st.test, st.body = pn, rest
+                        stmts[i:] = [st] + body
+                        continue
                 # ---- guard -> nesting (C3)
                 if enabled("C3") and not st.orelse and rest and tail is not None:
                     g = st.body
@@ -314,6 +359,44 @@ class BlockCanon:
                     new_stmts, consumed = r
                     stmts[i : i + consumed] = new_stmts
                     continue
+                # for T in (E for X in IT if C): BODY  ->  for X in IT: [if C:] T = E; BODY
+                if isinstance(st, ast.For) and not st.orelse and isinstance(st.iter, ast.GeneratorExp) and len(st.iter.generators) == 1 \
+                        and not st.iter.generators[0].is_async and isinstance(st.iter.generators[0].target, ast.Name):
+                    g_ = st.iter
+                    gen_ = g_.generators[0]
+                    xname = gen_.target.id
+                    tnames = [t.id for t in ast.walk(st.target) if isinstance(t, ast.Name)]
+                    pre_: Optional[List[ast.stmt]] = None
+                    if isinstance(st.target, ast.Name) and isinstance(g_.elt, ast.Name) and g_.elt.id == xname:
+                        pre_ = [] if st.target.id == xname else [_loc(ast.Assign(targets=[st.target], value=g_.elt), st)]  # type: ignore[list-item]
+                    elif isinstance(st.target, ast.Tuple) and isinstance(g_.elt, ast.Tuple) and len(st.target.elts) == len(g_.elt.elts) \
+                            and all(isinstance(t, ast.Name) for t in st.target.elts):
+                        pairs = [(t, v) for t, v in zip(st.target.elts, g_.elt.elts) if not (isinstance(v, ast.Name) and v.id == t.id)]
+                        bound = {t.id for t, _v in pairs}
+                        if not any(isinstance(x, ast.Name) and x.id in bound for _t, v in pairs for x in ast.walk(v)):
+                            pre_ = [_loc(ast.Assign(targets=[t], value=v), st) for t, v in pairs]  # type: ignore[misc]
+                    elif isinstance(st.target, ast.Name) and st.target.id != xname:
+                        pre_ = [_loc(ast.Assign(targets=[st.target], value=g_.elt), st)]  # type: ignore[list-item]
+                    if pre_ is not None:
+                        self.changed = True
+                        body_: List[ast.stmt] = pre_ + st.body
+                        if gen_.ifs:
+                            cond_ = gen_.ifs[-1]
+                            for cc in reversed(gen_.ifs[:-1]):
+                                cond_ = _and(cc, cond_)
+                            body_ = [_loc(ast.If(test=simplify_test(cond_), body=body_, orelse=[]), st)]  # type: ignore[list-item]
+                        stmts[i] = _loc(ast.For(target=gen_.target, iter=gen_.iter, body=body_, orelse=[]), st)  # type: ignore[assignment]
+                        continue
+                # for x in it: acc.append(x)  ->  acc.extend(it)
+                if isinstance(st, ast.For) and not st.orelse and isinstance(st.target, ast.Name) and _only(st.body, lambda s_: isinstance(s_, ast.Expr)):
+                    c_ = st.body[0].value  # type: ignore[attr-defined]
+                    if isinstance(c_, ast.Call) and isinstance(c_.func, ast.Attribute) and c_.func.attr == "append" and len(c_.args) == 1 and not c_.keywords \
+                            and isinstance(c_.args[0], ast.Name) and c_.args[0].id == st.target.id and is_pure(c_.func.value) \
+                            and not any(isinstance(x, ast.Name) and x.id == st.target.id for x in ast.walk(c_.func.value)):
+                        self.changed = True
+                        ext = ast.Call(func=ast.Attribute(value=c_.func.value, attr="extend", ctx=ast.Load()), args=[st.iter], keywords=[])
+                        stmts[i] = _loc(ast.Expr(value=ext), st)  # type: ignore[assignment]
+                        continue
                 r2 = self._acc_loop(st, stmts[i + 1] if not last else None)
                 if r2 is not None:
                     self.changed = True
@@ -325,6 +408,15 @@ class BlockCanon:
                     self.changed = True
                     stmts.pop()
                     i = max(0, i - 1)  # the new last statement now is in tail position
+                    continue
+            # `a, b = x, y` with plain targets that none of the right-hand sides reads -> two assignments
+            if enabled("C2") and isinstance(st, ast.Assign) and len(st.targets) == 1 and isinstance(st.targets[0], ast.Tuple) and isinstance(st.value, ast.Tuple) \
+                    and len(st.targets[0].elts) == len(st.value.elts) and all(isinstance(t, ast.Name) for t in st.targets[0].elts):
+                tnames = {t.id for t in st.targets[0].elts}
+                if len(tnames) == len(st.targets[0].elts) and not any(isinstance(x, ast.Name) and x.id in tnames for v in st.value.elts for x in ast.walk(v)) \
+                        and not any(isinstance(v, ast.Starred) for v in st.value.elts):
+                    self.changed = True
+                    stmts[i : i + 1] = [_loc(ast.Assign(targets=[t], value=v), st) for t, v in zip(st.targets[0].elts, st.value.elts)]  # type: ignore[misc]
                     continue
             if isinstance(st, ast.Assign) and len(st.targets) == 1 and isinstance(st.targets[0], ast.Name) and isinstance(st.value, ast.Name) \
                     and st.value.id == st.targets[0].id:
@@ -354,9 +446,11 @@ class BlockCanon:
                 if st.orelse and all(isinstance(s, ast.Pass) for s in st.body):
                     st.test, st.body, st.orelse = simplify_test(negate(st.test)), st.orelse, []
                     self.changed = True
-                if st.orelse and isinstance(st.test, ast.UnaryOp) and isinstance(st.test.op, ast.Not) and not terminates(st.body) and not terminates(st.orelse):
-                    st.test, st.body, st.orelse = st.test.operand, st.orelse, st.body
-                    self.changed = True
+                if st.orelse and not terminates(st.body) and not terminates(st.orelse):
+                    pn = prefer_negation(st.test)
+                    if pn is not None:
+                        st.test, st.body, st.orelse = pn, st.orelse, st.body
+                        self.changed = True
             return st
         if isinstance(st, (ast.For, ast.AsyncFor)):
             st.body = self.block(st.body, "loop")
@@ -403,12 +497,27 @@ class BlockCanon:
             a = _loc(ast.Assign(targets=[copy.deepcopy(t)], value=ie.body), st)
             b = _loc(ast.Assign(targets=[copy.deepcopy(t)], value=ie.orelse), st)
             return [_loc(ast.If(test=simplify_test(ie.test), body=[a], orelse=[b]), st)]  # type: ignore[list-item]
-        if isinstance(st, ast.AnnAssign) and isinstance(st.value, ast.IfExp) and isinstance(st.target, ast.Name):
+        if isinstance(st, ast.AnnAssign) and isinstance(st.value, ast.IfExp) and isinstance(st.target, (ast.Name, ast.Attribute)):
             ie = st.value
             a = _loc(ast.Assign(targets=[copy.deepcopy(st.target)], value=ie.body), st)
             b = _loc(ast.Assign(targets=[copy.deepcopy(st.target)], value=ie.orelse), st)
             return [_loc(ast.If(test=simplify_test(ie.test), body=[a], orelse=[b]), st)]  # type: ignore[list-item]
         return None
+
+    @staticmethod
+    def _nest(gens, innermost: List[ast.stmt], at: ast.AST) -> Optional[ast.stmt]:
+        """for g1: [if ifs1:] for g2: [if ifs2:] ... innermost"""
+        body = innermost
+        for gen in reversed(gens):
+            if gen.is_async:
+                return None
+            if gen.ifs:
+                cond = gen.ifs[-1]
+                for cc in reversed(gen.ifs[:-1]):
+                    cond = _and(cc, cond)
+                body = [_loc(ast.If(test=simplify_test(cond), body=body, orelse=[]), at)]  # type: ignore[list-item]
+            body = [_loc(ast.For(target=gen.target, iter=gen.iter, body=body, orelse=[]), at)]  # type: ignore[list-item]
+        return body[0]
 
     # -- C7: if any(c for x in it): <terminating>   ->  for x in it: if c: <terminating>
     def _scan_any(self, st: ast.stmt):
@@ -420,14 +529,10 @@ class BlockCanon:
         if isinstance(st.body[-1], (ast.Continue, ast.Break)):
             return None
         g = t.args[0]
-        if len(g.generators) != 1 or g.generators[0].is_async:
+        inner = _loc(ast.If(test=simplify_test(g.elt), body=st.body, orelse=[]), st)
+        loop = self._nest(g.generators, [inner], st)  # type: ignore[list-item]
+        if loop is None:
             return None
-        gen = g.generators[0]
-        cond: ast.expr = g.elt
-        for c in reversed(gen.ifs):
-            cond = _and(c, cond)
-        inner = _loc(ast.If(test=simplify_test(cond), body=st.body, orelse=[]), st)
-        loop = _loc(ast.For(target=gen.target, iter=gen.iter, body=[inner], orelse=[]), st)
         return [loop], 1
 
     # -- C7: v = next((e for x in it if c), None); if v is not None: <terminating>
@@ -439,8 +544,6 @@ class BlockCanon:
         if not (isinstance(c, ast.Call) and isinstance(c.func, ast.Name) and c.func.id == "next" and len(c.args) == 2 and _const(c.args[1], None) and isinstance(c.args[0], ast.GeneratorExp)):
             return None
         g = c.args[0]
-        if len(g.generators) != 1 or not g.generators[0].ifs:
-            return None
         if not (isinstance(nxt, ast.If) and not nxt.orelse):
             return None
         term = terminates(nxt.body) and not isinstance(nxt.body[-1], (ast.Continue, ast.Break))
@@ -456,14 +559,13 @@ class BlockCanon:
         )
         if not ok:
             return None
-        gen = g.generators[0]
-        cond = gen.ifs[-1]
-        for cc in reversed(gen.ifs[:-1]):
-            cond = _and(cc, cond)
+        if len(g.generators) > 1 and not term:
+            return None  # a `break` would only leave the innermost loop
         bind = _loc(ast.Assign(targets=[ast.Name(id=v, ctx=ast.Store())], value=g.elt), st)
         tailb = [] if term else [_loc(ast.Break(), nxt)]
-        inner = _loc(ast.If(test=simplify_test(cond), body=[bind] + nxt.body + tailb, orelse=[]), nxt)
-        loop = _loc(ast.For(target=gen.target, iter=gen.iter, body=[inner], orelse=[]), st)
+        loop = self._nest(g.generators, [bind] + nxt.body + tailb, st)  # type: ignore[operator]
+        if loop is None:
+            return None
         return [loop], 2
 
     # -- C7: return next((e for x in it if c), d)  ->  for x in it: if c: return e / return d
@@ -474,17 +576,12 @@ class BlockCanon:
         if not (isinstance(c.func, ast.Name) and c.func.id == "next" and len(c.args) == 2 and isinstance(c.args[0], ast.GeneratorExp) and not c.keywords):
             return None
         g = c.args[0]
-        if len(g.generators) != 1 or g.generators[0].is_async or not is_pure(c.args[1]):
+        if not is_pure(c.args[1]):
             return None
-        gen = g.generators[0]
         ret = _loc(ast.Return(value=g.elt), st)
-        body: List[ast.stmt] = [ret]  # type: ignore[list-item]
-        if gen.ifs:
-            cond = gen.ifs[-1]
-            for cc in reversed(gen.ifs[:-1]):
-                cond = _and(cc, cond)
-            body = [_loc(ast.If(test=simplify_test(cond), body=[ret], orelse=[]), st)]  # type: ignore[list-item]
-        loop = _loc(ast.For(target=gen.target, iter=gen.iter, body=body, orelse=[]), st)
+        loop = self._nest(g.generators, [ret], st)  # type: ignore[list-item]
+        if loop is None:
+            return None
         tail_ret = _loc(ast.Return(value=c.args[1]), st)
         return [loop, tail_ret], 1
 
@@ -499,6 +596,22 @@ class BlockCanon:
         elif isinstance(st, ast.AnnAssign) and isinstance(st.target, ast.Name) and st.value is not None:
             tgt = st.target.id
             val = st.value
+        if tgt is not None and isinstance(val, ast.Dict) and not val.keys:
+            # acc = {}; for t in it: [if c:] acc[k] = v   ->   acc = {k: v for t in it if c}
+            body = nxt.body
+            cond0: Optional[ast.expr] = None
+            if _only(body, lambda s: isinstance(s, ast.If) and not s.orelse):
+                cond0 = body[0].test  # type: ignore[attr-defined]
+                body = body[0].body  # type: ignore[attr-defined]
+            if _only(body, lambda s: isinstance(s, ast.Assign) and len(s.targets) == 1 and isinstance(s.targets[0], ast.Subscript)
+                     and isinstance(s.targets[0].value, ast.Name) and s.targets[0].value.id == tgt):
+                asg = body[0]
+                uses = [n for n in ast.walk(nxt) if isinstance(n, ast.Name) and n.id == tgt]
+                if len(uses) == 1:
+                    comp = ast.comprehension(target=nxt.target, iter=nxt.iter, ifs=[simplify_test(cond0)] if cond0 is not None else [], is_async=0)
+                    dc = ast.DictComp(key=asg.targets[0].slice, value=asg.value, generators=[comp])  # type: ignore[attr-defined]
+                    return _loc(ast.Assign(targets=[ast.Name(id=tgt, ctx=ast.Store())], value=dc), st)  # type: ignore[return-value]
+            return None
         if tgt is None or not (isinstance(val, ast.List) and not val.elts):
             return None
         body = nxt.body
@@ -1383,19 +1496,24 @@ def _all_paths_assign(block: List[ast.stmt]) -> bool:
     return False
 
 
-def _block_as_expr(body: List[ast.stmt]) -> Optional[ast.expr]:
-    """`return e` | `if c: return a` ... `return z`  ->  expression."""
+def _block_as_expr(body: List[ast.stmt], cont: Optional[ast.expr] = None) -> Optional[ast.expr]:
+    """A block that only tests and returns (`if c: return a` ... `return z`, nested
+    as deep as it likes) as one expression; `cont` is the value of whatever
+    follows the block.  None when the block does anything else."""
     if not body:
-        return None
+        return cont
     st = body[0]
-    if isinstance(st, ast.Return) and st.value is not None:
-        return st.value
-    if isinstance(st, ast.If) and len(st.body) == 1 and isinstance(st.body[0], ast.Return) and st.body[0].value is not None:
-        rest = list(st.orelse) + body[1:] if st.orelse else body[1:]
-        other = _block_as_expr(rest)
-        if other is None:
+    if isinstance(st, ast.Return):
+        return st.value if st.value is not None else _loc(ast.Constant(value=None), st)  # type: ignore[return-value]
+    if isinstance(st, ast.If):
+        k = _block_as_expr(body[1:], cont)
+        then = _block_as_expr(st.body, k)
+        other = _block_as_expr(st.orelse, k) if st.orelse else k
+        if then is None or other is None:
             return None
-        return _loc(ast.IfExp(test=st.test, body=st.body[0].value, orelse=other), st)  # type: ignore[return-value]
+        return _loc(ast.IfExp(test=st.test, body=copy.deepcopy(then), orelse=copy.deepcopy(other)), st)  # type: ignore[return-value]
+    if isinstance(st, ast.Pass):
+        return _block_as_expr(body[1:], cont)
     return None
 
 
@@ -1528,6 +1646,36 @@ def canonicalise(modules: Dict[str, ast.Module], known_funcs: Optional[Set[str]]
                         stats["inlined_helpers"] += 1
                         _canon_function(fn, may_write, single_use=False)
                     hi.changed = hi.changed or before
+    # new helpers whose every call was inlined are dead code now: drop them, so that no rule analyses the
+    # extracted fragment out of its context (a helper that is still referenced anywhere stays)
+    if enabled("C6") and known_funcs is not None:
+        new_defs = []
+        for mod, lst in funcs.items():
+            for fn, cls, q in lst:
+                if f"{mod}:{q}" not in known_funcs and fn.name.startswith("_") and not (fn.name.startswith("__") and fn.name.endswith("__")):
+                    new_defs.append((mod, fn))
+                elif f"{mod}:{q}" not in known_funcs and "." in q and cls is None and not fn.name.startswith("__"):
+                    new_defs.append((mod, fn))
+        if new_defs:
+            refs: Dict[str, int] = {}
+            for tree in modules.values():
+                for n in ast.walk(tree):
+                    if isinstance(n, ast.Name) and isinstance(n.ctx, ast.Load):
+                        refs[n.id] = refs.get(n.id, 0) + 1
+                    elif isinstance(n, ast.Attribute) and isinstance(n.ctx, ast.Load):
+                        refs[n.attr] = refs.get(n.attr, 0) + 1
+                    elif isinstance(n, ast.Constant) and isinstance(n.value, str) and n.value.isidentifier():
+                        refs[n.value] = refs.get(n.value, 0) + 1  # getattr(x, "name")
+            dead = {id(fn) for mod, fn in new_defs if refs.get(fn.name, 0) == 0}
+            # references from inside other dead helpers do not count - keep it simple: one pass
+            if dead:
+                for tree in modules.values():
+                    for n in ast.walk(tree):
+                        for fname, val in ast.iter_fields(n):
+                            if isinstance(val, list) and any(id(x) in dead for x in val):
+                                val[:] = [x for x in val if id(x) not in dead] or [ast.Pass()]
+                stats["removed_helpers"] = len(dead)
+                funcs = {mod: _all_functions(tree) for mod, tree in modules.items()}
     # last: statement splitting is undone (after helper inlining, which works on whole statements)
     for mod, lst in funcs.items():
         for fn, cls, q in lst:
